@@ -72,7 +72,8 @@ MANIFEST = dict(
          'again, serialised to the binary format and back (also as small databases that exercise the overflow blocks), queried lazily in '
          'random orders, queried with an added database in front of the bundled one, and asked again after the caller changed the answers.',
     note='Still search only: @include, @mapsize, @MaterialExclusion, @AutoVisgroup and @snippet bodies, autovis() helpers, '
-         'FGD.sorted_ents, and the character-level lexing of everything except quoted strings (bare words, punctuation, comments): '
+         'FGD.sorted_ents, and the character-level lexing of everything except quoted strings (bare words, punctuation, comments; the one exception is the bare-word rule for a keyvalue '
+         'default written without quotes, hand model Fmt/FgdBare.v with the test of KVDef.export as a generated object, tied by the near-number search only): '
          'the line and header models work on the token stream of the real Tokenizer and are tied to the exporters/parsers by token-exact '
          'correspondence (also on mutated token lists), not by a translator-generated core (the type text, the kind keyword and the block '
          'builder configuration ARE generated). Helper objects, tags and numbers '
@@ -95,7 +96,7 @@ MANIFEST = dict(
          'address over immutable leaves; tied by the isolation searches), the real Tokenizer as lexer of the line correspondences, CPython.',
 )
 
-IMPORTS = ['Coq.NArith.NArith', 'Coq.Lists.List', 'Coq.Strings.String', 'Coq.Bool.Bool', 'Coq.Arith.Arith', 'SV.Fmt.LongString', 'SV.Fmt.FgdBin', 'SV.Fmt.FgdBinEnt', 'SV.Fmt.FgdLine', 'SV.Fmt.FgdBody', 'SV.Fmt.FgdHead', 'SV.Fmt.FgdEntity', 'SV.SM.LazyDb', 'SV.SM.LazyDbMulti',
+IMPORTS = ['Coq.NArith.NArith', 'Coq.Lists.List', 'Coq.Strings.String', 'Coq.Bool.Bool', 'Coq.Arith.Arith', 'SV.Fmt.LongString', 'SV.Fmt.FgdBin', 'SV.Fmt.FgdBinEnt', 'SV.Fmt.FgdLine', 'SV.Fmt.FgdBody', 'SV.Fmt.FgdHead', 'SV.Fmt.FgdBare', 'SV.Fmt.FgdEntity', 'SV.SM.LazyDb', 'SV.SM.LazyDbMulti',
            'SV.Gen.FgdConsts_gen', 'SV.Props.C16']
 PRE = '''Import ListNotations. Open Scope bool_scope. Open Scope N_scope. Open Scope list_scope.
 Fixpoint bad_idx {A} (f : A -> bool) (n : N) (l : list A) : list N :=
@@ -688,7 +689,7 @@ def gen_line_kv(rng: random.Random, plain: bool) -> tuple[Any, frozenset]:
         vl = [(v, gen_line_text(rng, rng.choice(['short', 'short', 'empty', 'long']), True).replace('\n', ' '), tg()) for v in vals]
         kv = KVDef(name, typ, txt('short', 'empty', 'special'), rng.choice(DEFAULTS), txt('empty', 'short', 'long'), vl or None)
     else:
-        kv = KVDef(name, typ, txt('short', 'short', 'empty', 'special', 'long'), rng.choice(DEFAULTS + (['yes', 'No'] if typ is ValueTypes.BOOL else [])),
+        kv = KVDef(name, typ, txt('short', 'short', 'empty', 'special', 'long'), rng.choice(DEFAULTS + NEAR_DEFAULTS + (['yes', 'No'] if typ is ValueTypes.BOOL else [])),
                    txt('empty', 'empty', 'short', 'special', 'long', 'long'))
     kv.readonly, kv.reportable = rng.random() < 0.25, rng.random() < 0.25
     return kv, (frozenset() if plain else rng.choice(TAGSETS))
@@ -2497,6 +2498,8 @@ KV_NAMES = ['targetname', 'speed', 'model', 'skin', 'StartDisabled', 'message', 
             'health', 'damage_type', 'Filter01', 'soundscape', '_light', 'wait']
 DEFAULTS = ['', '', '0', '1', '-5', '10', '0 0 0', '255 255 255 200', 'models/props/box.mdl', 'Some text', '1.5', '-1.25', 'no way',
             'sprites/glow01.vmt', 'a-b', '0.0']
+# round 6: near-numbers (int() accepts some of them, the digits-and-minus test of KVDef.export others): see search_near_number_defaults
+NEAR_DEFAULTS = ['+90', ' 7', '7 ', '1_000', '--1', '1-', '-', '+', '- 5']
 RISKY_DEFAULTS = ['say "hi"', 'materials\\tools\\nodraw', "it's", 'two\nlines', 'tab\there', '\\']
 # custom (unknown to srctools) value type names: mixed case, digits, underscores; none is a spelling of a known type or of `ehandle`
 CUSTOM_TYPES = ['Locale_ID', 'BitField32', 'ultra_void', 'int1024', 'Mode_Enum', 'EHANDLE_2', 'Thing_Handle', 'X', 'vector3D', 'String_T',
@@ -2558,7 +2561,7 @@ def gen_fgd(rng: random.Random, plain: bool, ck: Optional[Ck] = None):
                         if ck is not None:
                             ck.hist('gen_custom_type', 'keyvalue')
                     kv = KVDef(name, typ, txt('short', 'short', 'empty', 'special'),
-                               rng.choice(DEFAULTS if plain or rng.random() < 0.85 else RISKY_DEFAULTS),
+                               rng.choice(DEFAULTS + NEAR_DEFAULTS if plain or rng.random() < 0.85 else RISKY_DEFAULTS),
                                txt('empty', 'empty', 'short', 'special', 'long', 'cut', 'nospace'))
                 kv.readonly = rng.random() < 0.15
                 kv.reportable = rng.random() < 0.15
@@ -2626,6 +2629,8 @@ def fgd_cause(fgd: Any, opts: dict) -> str:
             return classify_longstring(ext, t, out, '\t')
     if any(c in d for d in raw for c in '"\\\n\r\t'):
         return 'special-character-in-default-or-choice-value'
+    if any(d in NEAR_DEFAULTS or default_spelling(d) in ('int()-accepts-but-not-plain', 'digits-and-minus-not-a-number') for d in raw):
+        return 'near-number-default'
     if has_custom_types(fgd):
         return 'custom-value-type'
     if any('' in h.export() for e in fgd.entities.values() for h in e.helpers):
@@ -3415,6 +3420,8 @@ INSTANCE_OBLIGATIONS = {
     'text_helper_args_empty_parentheses_are_no_argument': 'helper_args_empty_parens_no_argument',
     'text_helper_args_joined_by_comma_blank': 'helper_args_joined_by_comma_blank',
     'text_helper_args_filter_is_refuted': 'filter_blank_breaks',
+    'text_default_written_bare_is_one_token': 'bare_test_ok gen_bare_test',
+    'text_default_bare_by_int_call_is_refuted': 'int_call_breaks',
     # round 5: what EntityDef.__deepcopy__ shares with the cached definition (SM/FgdCopyShare.v), per attribute
     'state_copy_of_keyvalues_shares_no_object': 'copy_field_isolates "keyvalues"%string',
     'state_copy_of_inputs_shares_no_object': 'copy_field_isolates "inputs"%string',
@@ -3694,6 +3701,84 @@ def search_helper_args(ck: Ck) -> None:
             ck.violation(key, what, {'kind': 'helper_args', 'items': [[n, a] for n, a in small], 'text': helper_args_fgd(small)})
 
 
+# =============================================================================================== search: near-number defaults (round 6)
+NEAR_NUMBER_ALPHABET = '+- _7'
+NEAR_NUMBER_EXTRA = ['+90', ' 7', '7 ', ' 7 ', '1_000', '1_0', '_1', '1_', '1__0', '\u0663', '\u0663\u0664', '\uff17', '7\u0663', '-', '--1', '1-', '-1-', '+',
+                     '+-1', '-+1', '1+1', '1 000', '0x10', '1e3', '1.0', '00', '-0', '+0', ' -5 ', '- 5', '+ 5', '\xa07', '7\xa0', '\u20037', '+1_0', ' +7',
+                     '-_7', '7:', ':7', '7/', '#7', '1,0', '1;0', '(7)', '[7]', '7=', "7'"]
+
+
+def near_number_defaults() -> list[str]:
+    """Every text of 1-3 characters over '+', '-', blank, '_', '7' (155: everything int() accepts that is not plain decimal is there in
+    its shortest form, and the near-numbers '-', '--7', '7-', '+' ...), and longer / non-ASCII spellings."""
+    import itertools
+    out = [''.join(t) for n in (1, 2, 3) for t in itertools.product(NEAR_NUMBER_ALPHABET, repeat=n)]
+    return out + [x for x in NEAR_NUMBER_EXTRA if x not in out]
+
+
+def default_spelling(d: str) -> str:
+    plain = d != '' and all(c in '0123456789-' for c in d)
+    try:
+        int(d)
+        accepted = True
+    except ValueError:
+        accepted = False
+    return 'plain-decimal' if plain and accepted else 'digits-and-minus-not-a-number' if plain else \
+        'int()-accepts-but-not-plain' if accepted else 'other-near-number'
+
+
+def near_number_fgd(items: list[tuple[str, str]]):
+    """One point entity with a keyvalue per (value type name, default)."""
+    from srctools.fgd import FGD, EntityDef, EntityTypes, KVDef, ValueTypes
+    fgd = FGD()
+    e = EntityDef(EntityTypes.POINT, 'near_number')
+    fgd.entities[e.classname] = e
+    for i, (tn, d) in enumerate(items):
+        name = f'kv{i}'
+        e.keyvalues[name] = {frozenset(): KVDef(name, ValueTypes[tn], f'Kv {i}', d, 'desc' if i % 2 else '')}
+        e.kv_order.append(name)
+    return fgd
+
+
+def check_near_number(items: list[tuple[str, str]], opts: dict) -> Optional[tuple[str, str]]:
+    r = roundtrip_fgd(near_number_fgd(items), opts)
+    if r['stage'] == 'ok':
+        return None
+    sp = sorted({default_spelling(d) for _, d in items})
+    key = {'parse': 'parse-error', 'export': 'export-error', 'compare': 'changed', 'fixpoint': 'second-export-differs'}[r['stage']]
+    return f'near-number-default-{key}:{"+".join(sp)}', describe_gen_failure(r)
+
+
+def search_near_number_defaults(ck: Ck) -> None:
+    """KVDef.export writes a default without quotes when it `looks like an integer`: every near-number spelling as the default of a
+    keyvalue of every value type whose default goes through that branch (all but SPAWNFLAGS), both syntaxes: export -> parse ->
+    compare -> export.  What is written bare must come back as the same string."""
+    from srctools.fgd import ValueTypes
+    rng = ck.rng
+    defaults = near_number_defaults()
+    types = [t.name for t in ValueTypes if t is not ValueTypes.SPAWNFLAGS]
+    always = ['STRING', 'INT', 'FLOAT', 'BOOL', 'CHOICES']
+    pick = types if ck.thorough else always + rng.sample([t for t in types if t not in always], 3)
+    cases = [(t, d) for t in pick for d in defaults]
+    rng.shuffle(cases)
+    i = 0
+    while i < len(cases):
+        items = cases[i:i + 6]
+        i += 6
+        opts = rng.choice(OPTS)
+        ck.count('search_near_number_defaults')
+        for _, d in items:
+            ck.hist('near_number_default_spelling', default_spelling(d))
+        ck.seen(('nearnum', tuple(items), opt_name(opts)))
+        if check_near_number(items, opts) is None:
+            continue
+        for it in items:        # name each offending keyvalue on its own
+            one = check_near_number([it], opts)
+            if one is not None:
+                ck.violation(one[0], f'default {it[1]!r} of a {it[0]} keyvalue ({opt_name(opts)}): {one[1]}',
+                             {'kind': 'near_number', 'items': [list(it)], 'opts': opts, 'text': near_number_fgd([it]).export(**opts)})
+
+
 def search_groups(data: bytes, tb: dict) -> list[list[tuple[str, Callable[..., Any], tuple]]]:
     """The search stages, in two groups of about the same cost (one worker process each)."""
     return [
@@ -3701,6 +3786,7 @@ def search_groups(data: bytes, tb: dict) -> list[list[tuple[str, Callable[..., A
          ('search_bundled', search_bundled, ()),
          ('search_type_text', search_type_text, ()),
          ('search_helper_args', search_helper_args, ()),
+         ('search_near_number_defaults', search_near_number_defaults, ()),
          ('search_multi_db', search_multi_db, (data, tb)),
          ('search_isolation', search_isolation, (tb['names'],)),
          ('search_lazy_synthetic', search_lazy_synthetic, ())],
@@ -4050,6 +4136,10 @@ def run(ck: Ck) -> None:
         ck.explain('instance:text_type_table')
         ck.explain('data:io_type_names')
         ck.explain('data:value_type_names')
+    if any('near-number-default' in k for k in keys):
+        # a default written without quotes that is not read back as that one token: the inputs of the bare-default premise
+        ck.explain('instance:text_default_')
+        ck.explain('correspondence:text_lines_')
     if any(k.startswith('helper-args-') or 'helpers' in k or 'blank-helper-argument' in k for k in keys):
         ck.explain('instance:text_helper_args_')
         ck.explain('correspondence:text_header_')
@@ -4167,6 +4257,12 @@ def replay(data: dict) -> int:
         if not found_c:
             print('no in-place change of a deepcopy() reaches the original')
         return 1 if found_c else 0
+    if kind == 'near_number':
+        print(r['text'])
+        one = check_near_number([tuple(x) for x in r['items']], r['opts'])
+        if one is not None:
+            print('VIOLATION', one[0], ':', one[1])
+        return 1 if one is not None else 0
     if kind == 'helper_args':
         print(r['text'])
         found_h = check_helper_args([(n, list(a)) for n, a in r['items']])
